@@ -177,3 +177,17 @@ Example gap_forms_agree :
   split_post_line (a ++ [TAB] ++ [36; 53]) = ((KReal, a), Some [36; 53]) /\
   split_post_line (a ++ [SP] ++ [36; 53]) = ((KReal, a ++ [SP; 36; 53]), None).
 Proof. vm_compute. repeat split; reflexivity. Qed.
+
+(* what follows the gap decides whether the posting carries an amount: a note (;) or an assertion / assignment (=) does
+   not, anything else does *)
+Theorem amount_follows_the_gap a sep c t :
+  name_ok a = true -> sep_ok sep = true -> is_ws c = false ->
+  has_amount_text (snd (split_post_line (a ++ sep ++ c :: t))) = negb (Z.eqb c 59) && negb (Z.eqb c 61).
+Proof.
+  intros Ha Hs Hc. rewrite (split_post_line_gap a sep (c :: t) Ha Hs).
+  - reflexivity.
+  - cbn [skip_ws]. rewrite Hc. reflexivity.
+Qed.
+
+Corollary bare_posting_has_no_amount a : name_ok a = true -> has_amount_text (snd (split_post_line a)) = false.
+Proof. intros Ha. rewrite (split_post_line_bare a Ha). reflexivity. Qed.
